@@ -242,16 +242,18 @@ def geometry_part(run, bulk, np):
         xyz = np.round(rng.standard_normal((n, 3)) * 10.0 ** rng.integers(-2, 3, (n, 1)), 3)
         cp = int(rng.choice([0, 0, 7]))
         cd = int(rng.choice([0, 9]))
-        case = {"grids": ids, "xyz": xyz.tolist(), "cp": cp, "cd": cd}
+        psv, sev = [("", ""), (123456, ""), ("", 7), (13, 2)][trial % 4]      # none / PS only / SEID only / both
+        case = {"grids": ids, "xyz": xyz.tolist(), "cp": cp, "cd": cd, "ps": psv, "seid": sev}
         run.case(("grid", trial), part="grids/coords")
         for form, tol in (("{:8d}", 2e-4), ("{:16d}", 1e-9)):
             try:
                 f = io.StringIO()
-                bulk.wtgrids(f, ids, cp=cp, xyz=xyz, cd=cd, form="{:8.3f}" if form == "{:8d}" else "{:16.8f}")
+                bulk.wtgrids(f, ids, cp=cp, xyz=xyz, cd=cd, ps=psv, seid=sev, form="{:8.3f}" if form == "{:8d}" else "{:16.8f}")
                 txt = f.getvalue()
                 back = bulk.rdgrids(io.StringIO(txt))
                 if back is None or [int(x) for x in back[:, 0]] != ids or not np.allclose(back[:, 2:5], xyz, atol=5.1e-4 if form == "{:8d}" else 5.1e-9, rtol=0) \
-                        or [int(x) for x in back[:, 1]] != [cp] * n or [int(x) for x in back[:, 5]] != [cd] * n:
+                        or [int(x) for x in back[:, 1]] != [cp] * n or [int(x) for x in back[:, 5]] != [cd] * n \
+                        or [int(x) for x in back[:, 6]] != [int(psv or 0)] * n or [int(x) for x in back[:, 7]] != [int(sev or 0)] * n:
                     run.violation("wtgrids/rdgrids: grids read back differ", dict(case, text=txt, got=None if back is None else back.tolist()), {"fn": "wtgrids"})
             except Exception as ex:
                 run.violation("wtgrids/rdgrids: raised %r" % ex, case, {"fn": "wtgrids"})
